@@ -1,7 +1,7 @@
 #!/venv/bin/python
 """A check request whose "files" field is not a list ends the daemon (TypeError inside cmd_check ->
 "Daemon crashed!" -> exit).
-key: daemon-died:on-faulty-connection:TypeError@dmypy_server.py:cmd_check
+key: daemon-died:on-faulty-connection:TypeError@dmypy_server.py:cmd_check:via=run_command
 
 Standalone: /venv/bin/python wrong_type_argument_kills_daemon.py   (VERIF_REPO=<dir> to test another checkout)
 exit 1 = defect present, 0 = absent, 2 = could not run."""
